@@ -1,6 +1,6 @@
 (* C07 — proofs, part 1: Python ranges, the loop count `ceiling((stop-start)/step)`, the last index, polynomials. *)
 From Coq Require Import ZArith QArith Qround Qabs List Bool Lia ZifyBool Lra Lqa.
-Require Import QV.C07.Model QV.C07.Spec.
+Require Import QV.C07.Model QV.C07.Spec QV.C07.Wf.
 Import ListNotations.
 Ltac Zify.zify_post_hook ::= Z.to_euclidean_division_equations.
 Open Scope Z_scope.
@@ -75,8 +75,7 @@ Proof.
   rewrite range_from_last; [lia|]. destruct (Z.to_nat (range_len a o s)); [simpl in Hne; congruence|lia].
 Qed.
 
-(* the index ForLoopPT.final_values substitutes: start + Max((stop-start)//step - 1, 0)*step *)
-Definition floor_final_index (a o s : Z) : Z := a + Z.max ((o - a) / s - 1) 0 * s.
+(* the index ForLoopPT.final_values substitutes (start + Max((stop-start)//step - 1, 0)*step) is Wf.floor_final_index *)
 
 (* it is the last element exactly when the step divides the span (for a non-empty range) *)
 Lemma floor_final_index_ok a o s ks : py_range a o s = Some ks -> ks <> [] -> (o - a) mod s = 0 ->
